@@ -25,6 +25,9 @@ META = {
 
 def run(repo, rep):
     alg.reset()
+    # sample points of the numeric witnesses over the property's box: distances up to the antipode (sigma beyond a quarter turn), every azimuth
+    from .. import symcheck as _sc
+    _sc.set_ranges({'s': (1.0e3, 1.9e7), 'az': (1.0, 359.0), 'lat1': (-85.0, 85.0), 'lon1': (-175.0, 175.0)})
     common.state_rule(repo, rep, [('geodepy.geodesy', 'vincdir')])
     # 'any ellipsoid': the class keeps the defining constants it is given and derives the rest from them
     common.ellipsoid_rules(repo, rep, projections=False)
